@@ -99,6 +99,8 @@ class eapol(packet_base):
             pass                # These types have no payloads.
         else:
             self.msg('warning unsupported EAPOL type: %s' % (self.type_name(self.type),))
+            # Keep the body (e.g., an EAPOL-Key descriptor) as raw payload
+            self.next = raw[self.MIN_LEN:]
 
     def hdr(self, payload):
         return struct.pack('!BBH', self.version, self.type, self.bodylen)
